@@ -38,7 +38,7 @@ Definition to_step (s : estep) : step :=
 
 (* (renames, source steps with what was written, destination steps, destination schema, observed stream, did the
    implementation fail) -> 0 fine | 100 + i: a runtime error was due at destination step i, the implementation produced a stream | 2 the implementation
-   failed where a value was due | 3 the stream does not decode to the converted values | 4 the source values are ill-typed *)
+   failed where a value was due | 3 the stream does not decode to the converted values (1000 + i: destination step i is the first that differs) | 4 the source values are ill-typed *)
 Definition ccase := (renames * list (estep * swrite) * list estep * list N * list N * bool)%type.
 Definition ccase_status (c : ccase) : N :=
   let '(rn, src, dst, schema, obs, failed) := c in
@@ -51,7 +51,12 @@ Definition ccase_status (c : ccase) : N :=
   | Some ws =>
       if failed then 2 else
       match dec_protocol schema (map to_step dst) obs with
-      | POk vs => if list_eqb sread_eq vs (map sread_of ws) then 0 else 3
+      | POk vs => if list_eqb sread_eq vs (map sread_of ws) then 0
+                  else (fix go (a b : list sread) (i : N) : N :=
+                          match a, b with
+                          | x :: ar, y :: br => if sread_eq x y then go ar br (i + 1) else 1000 + i
+                          | _, _ => 3
+                          end) vs (map sread_of ws) 0
       | _ => 3
       end
   end.
